@@ -1,11 +1,11 @@
-\* C15 quick: every text of <= 6 lines obtained from a well-formed text (<= 2 blocks, <= 2 body lines,
+\* C15 quick: every text of <= 5 lines obtained from a well-formed text (<= 2 blocks, <= 2 body lines,
 \* <= 1 leading / separating blank line) by ONE mutation: insert a line of any of the 24 classes,
 \* delete or duplicate a line; every prefix of such a text; both allow_empty_author settings
 CONSTANTS
   Mode = "text"
   Classes <- AllClasses
   AEAs = {TRUE, FALSE}
-  MaxLines = 6
+  MaxLines = 5
   MaxBlocks = 2
   MaxBody = 2
   MaxLead = 1
